@@ -1,5 +1,10 @@
 use crate::report::Unit;
+pub mod c09;
 pub mod c12;
+pub mod c15;
+pub mod c17;
+pub mod c13;
+pub mod c18;
 pub mod seqprops;
 
 pub fn units(id: &str, tier: &str) -> Option<Vec<Unit>> {
@@ -10,9 +15,14 @@ pub fn units(id: &str, tier: &str) -> Option<Vec<Unit>> {
         "C04" => seqprops::c04(thorough),
         "C05" => seqprops::c05(thorough),
         "C08" => seqprops::c08(thorough),
+        "C09" => c09::units(thorough),
         "C10" => seqprops::c10(thorough),
         "C11" => seqprops::c11(thorough),
         "C12" => c12::units(thorough),
+        "C13" => c13::units(thorough),
+        "C15" => c15::units(thorough),
+        "C17" => c17::units(thorough),
+        "C18" => c18::units(thorough),
         _ => return None,
     })
 }
